@@ -68,20 +68,12 @@ package ecs
 //@   assert   cleanupArchetypes index-moved: old(s.entities[entity.id].row) != old(s.tables[s.entities[entity.id].table].len) - 1 ==>
 //@        s.entities[old(rowEnt(&s.tables[s.entities[entity.id].table])[s.tables[s.entities[entity.id].table].len-1]).id].table == old(s.entities[entity.id].table)
 //@        && s.entities[old(rowEnt(&s.tables[s.entities[entity.id].table])[s.tables[s.entities[entity.id].table].len-1]).id].row == old(s.entities[entity.id].row)
-//@   assert   cleanupArchetypes sw-live: old(s.entities[entity.id].row) != old(s.tables[s.entities[entity.id].table].len) - 1 ==>
+//@   assert   HasObservers sw-live: old(s.entities[entity.id].row) != old(s.tables[s.entities[entity.id].table].len) - 1 ==>
 //@        old(alive(&s.entityPool, rowEnt(&s.tables[s.entities[entity.id].table])[s.tables[s.entities[entity.id].table].len-1]))
 //@        && old(rowEnt(&s.tables[s.entities[entity.id].table])[s.tables[s.entities[entity.id].table].len-1]).id != entity.id
 //@        && old(s.entities[rowEnt(&s.tables[s.entities[entity.id].table])[s.tables[s.entities[entity.id].table].len-1].id].table) == old(s.entities[entity.id].table)
 //@        && old(s.entities[rowEnt(&s.tables[s.entities[entity.id].table])[s.tables[s.entities[entity.id].table].len-1].id].row) == old(s.tables[s.entities[entity.id].table].len) - 1
-//@   assert   cleanupArchetypes uniq: forall i uint32 :: __trigger(s.entities[i].row) && (s.entityPool.reserved <= entityID(i) && uint64(i) < uint64(len(s.entityPool.entities)) && old(epRank(&s.entityPool)[i]) == 0 && old(s.entities[i].table) == old(s.entities[entity.id].table) ==>
-//@        (old(s.entities[i].row) == old(s.entities[entity.id].row) ==> entityID(i) == entity.id)
-//@        && (old(s.entities[i].row) == old(s.tables[s.entities[entity.id].table].len) - 1 ==> entityID(i) == old(rowEnt(&s.tables[s.entities[entity.id].table])[s.tables[s.entities[entity.id].table].len-1]).id))
-//@   assert   return sw-live-r: old(s.isTarget[entity.id]) || old(s.entities[entity.id].row) != old(s.tables[s.entities[entity.id].table].len) - 1 ==>
-//@        old(alive(&s.entityPool, rowEnt(&s.tables[s.entities[entity.id].table])[s.tables[s.entities[entity.id].table].len-1]))
-//@        && old(rowEnt(&s.tables[s.entities[entity.id].table])[s.tables[s.entities[entity.id].table].len-1]).id != entity.id
-//@        && old(s.entities[rowEnt(&s.tables[s.entities[entity.id].table])[s.tables[s.entities[entity.id].table].len-1].id].table) == old(s.entities[entity.id].table)
-//@        && old(s.entities[rowEnt(&s.tables[s.entities[entity.id].table])[s.tables[s.entities[entity.id].table].len-1].id].row) == old(s.tables[s.entities[entity.id].table].len) - 1
-//@   assert   return uniq-r: old(s.isTarget[entity.id]) || forall i uint32 :: __trigger(s.entities[i].row) && (s.entityPool.reserved <= entityID(i) && uint64(i) < uint64(len(s.entityPool.entities)) && old(epRank(&s.entityPool)[i]) == 0 && old(s.entities[i].table) == old(s.entities[entity.id].table) ==>
+//@   assert   HasObservers uniq: forall i uint32 :: __trigger(s.entities[i].row) && (s.entityPool.reserved <= entityID(i) && uint64(i) < uint64(len(s.entityPool.entities)) && old(epRank(&s.entityPool)[i]) == 0 && old(s.entities[i].table) == old(s.entities[entity.id].table) ==>
 //@        (old(s.entities[i].row) == old(s.entities[entity.id].row) ==> entityID(i) == entity.id)
 //@        && (old(s.entities[i].row) == old(s.tables[s.entities[entity.id].table].len) - 1 ==> entityID(i) == old(rowEnt(&s.tables[s.entities[entity.id].table])[s.tables[s.entities[entity.id].table].len-1]).id))
 //@   ensures  rows-other: old(s.isTarget[entity.id]) || (forall t uint32, r uint32 :: __trigger(rowEnt(&s.tables[t])[r]) && (uint64(t) < uint64(len(s.tables)) && tableID(t) != old(s.entities[entity.id].table) ==>
